@@ -284,13 +284,20 @@ func c05Run(c c05Case, dir string) (res c05Result) {
 		holderDone := make(chan struct{})
 		go func() { global.MergeNoblock(query, c05Holder); close(holderDone) }()
 		<-parked
-		deliver(c1, m1[0])
+		// with a try-lock merge the messages return at once (merge skipped); with a blocking merge they wait for the lock
+		delivered := make(chan struct{})
+		go func() { deliver(c1, m1[0]); close(delivered) }()
+		select {
+		case <-delivered:
+		case <-time.After(3 * time.Millisecond):
+		}
 		c05H.mu.Lock()
 		delete(c05H.gate, global)
 		delete(c05H.parked, global)
 		c05H.mu.Unlock()
 		close(gate)
 		<-holderDone
+		<-delivered
 	} else {
 		deliver(c1, m1[0])
 	}
